@@ -283,3 +283,190 @@ refactor("c05-r-local-sort", "C05", RULES,
          """    ops = sorted(dispatcher.available_operations(), key=lambda operation: operation.duration)
     ops.reverse()
     return ops[-1]""", "mutating a fresh copy is fine")
+
+# ------------------------------------------------------------------ C09
+ENV1 = "job_shop_lib/reinforcement_learning/_single_job_shop_graph_env.py"
+ENVM = "job_shop_lib/reinforcement_learning/_multi_job_shop_graph_env.py"
+mutant("c09-index-before-check", "C09", "R09.a", DISP,
+       """        if not self.is_operation_ready(operation):
+            raise ValidationError("Operation is not ready to be scheduled.")
+
+        if machine_id is None:
+            machine_id = operation.machine_id
+""",
+       """        if not self.is_operation_ready(operation):
+            raise ValidationError("Operation is not ready to be scheduled.")
+        self._job_next_operation_index[operation.job_id] += 1
+        if machine_id is None:
+            machine_id = operation.machine_id
+""", "index advanced before the ScheduledOperation constructor can reject the machine")
+mutant("c09-append-before-order-check", "C09", "R09.a", SCH,
+       """        self._check_start_time_of_new_operation(scheduled_operation)
+        self.schedule[scheduled_operation.machine_id].append(
+            scheduled_operation
+        )
+""",
+       """        self.schedule[scheduled_operation.machine_id].append(
+            scheduled_operation
+        )
+        self._check_start_time_of_new_operation(scheduled_operation)
+""")
+mutant("c09-no-readiness", "C09", "R09.d", DISP,
+       """        if not self.is_operation_ready(operation):
+            raise ValidationError("Operation is not ready to be scheduled.")
+
+""", "")
+mutant("c09-no-eligibility", "C09", "R09.d", SOP,
+       """        if value not in self.operation.machines:
+            raise ValidationError(
+                f"Operation cannot be scheduled on machine {value}. "
+                f"Valid machines are {self.operation.machines}."
+            )
+""", "")
+mutant("c09-validate-late", "C09", "R09.a", DISP,
+       """        scheduled_operation = ScheduledOperation(
+            operation, start_time, machine_id
+        )
+        self.schedule.add(scheduled_operation)
+""",
+       """        self._job_next_available_time[operation.job_id] = start_time
+        scheduled_operation = ScheduledOperation(
+            operation, start_time, machine_id
+        )
+        self.schedule.add(scheduled_operation)
+""")
+mutant("c09-next-op-no-raise", "C09", "R09.d", DISP,
+       """        if (
+            len(self.instance.jobs[job_id])
+            <= self._job_next_operation_index[job_id]
+        ):
+            raise ValidationError(
+                f"No more operations left for job {job_id} to schedule."
+            )
+        return self.instance.jobs[job_id][
+            self._job_next_operation_index[job_id]
+        ]""",
+       """        return self.instance.jobs[job_id][
+            min(self._job_next_operation_index[job_id], len(self.instance.jobs[job_id]) - 1)
+        ]""")
+mutant("c09-env-write-first", "C09", "R09.c", ENV1,
+       "        job_id, machine_id = action\n        operation = self.dispatcher.next_operation(job_id)\n",
+       "        job_id, machine_id = action\n        self.reward_function.rewards.append(0)\n        operation = self.dispatcher.next_operation(job_id)\n")
+mutant("c09-menv-write-first", "C09", "R09.c", ENVM,
+       "        obs, reward, done, truncated, info = (\n            self.single_job_shop_graph_env.step(action)\n        )",
+       "        self.render_mode = None\n        obs, reward, done, truncated, info = (\n            self.single_job_shop_graph_env.step(action)\n        )")
+mutant("c09-notify-before-add", "C09", "R09.b", DISP,
+       """        self.schedule.add(scheduled_operation)
+        self._update_tracking_attributes(scheduled_operation)
+""",
+       """        for subscriber in self.subscribers:
+            subscriber.update(scheduled_operation)
+        self.schedule.add(scheduled_operation)
+        self._update_tracking_attributes(scheduled_operation)
+""")
+refactor("c09-r-inline-ready", "C09", DISP,
+         "        if not self.is_operation_ready(operation):\n            raise ValidationError(\"Operation is not ready to be scheduled.\")",
+         "        if self._job_next_operation_index[operation.job_id] != operation.position_in_job:\n            raise ValidationError(\"Operation is not ready to be scheduled.\")")
+refactor("c09-r-local-sop", "C09", DISP,
+         """        scheduled_operation = ScheduledOperation(
+            operation, start_time, machine_id
+        )
+        self.schedule.add(scheduled_operation)""",
+         """        sop = ScheduledOperation(operation, start_time, machine_id)
+        scheduled_operation = sop
+        self.schedule.add(sop)""")
+
+# ------------------------------------------------------------------ C10
+HIST = "job_shop_lib/dispatching/_history_observer.py"
+REM = "job_shop_lib/dispatching/feature_observers/_remaining_operations_observer.py"
+FOBS = "job_shop_lib/dispatching/feature_observers/_feature_observer.py"
+GUP = "job_shop_lib/graphs/graph_updaters/_graph_updater.py"
+NOTIFY = """        for subscriber in self.subscribers:
+            subscriber.update(scheduled_operation)
+"""
+mutant("c10-reversed", "C10", "R10.a", DISP, NOTIFY,
+       "        for subscriber in reversed(self.subscribers):\n            subscriber.update(scheduled_operation)\n")
+mutant("c10-skip-first", "C10", "R10.a", DISP, NOTIFY,
+       "        for subscriber in self.subscribers[1:]:\n            subscriber.update(scheduled_operation)\n")
+mutant("c10-conditional", "C10", "R10.a", DISP, NOTIFY,
+       "        for subscriber in self.subscribers:\n            if subscriber.is_singleton:\n                subscriber.update(scheduled_operation)\n")
+mutant("c10-twice", "C10", "R10.a", DISP, NOTIFY,
+       NOTIFY + "        if not self.schedule.is_complete():\n            return\n" + NOTIFY,
+       "second notification round when the schedule becomes complete")
+mutant("c10-notify-before-state", "C10", "R10.a", DISP,
+       """        self._machine_next_available_time[machine_id] = end_time
+        self._job_next_operation_index[job_id] += 1
+        self._job_next_available_time[job_id] = end_time
+        self._cache = {}
+
+        # Notify subscribers
+        for subscriber in self.subscribers:
+            subscriber.update(scheduled_operation)
+""",
+       """        self._machine_next_available_time[machine_id] = end_time
+        self._job_next_operation_index[job_id] += 1
+        self._cache = {}
+
+        # Notify subscribers
+        for subscriber in self.subscribers:
+            subscriber.update(scheduled_operation)
+        self._job_next_available_time[job_id] = end_time
+        self._cache = {}
+""")
+mutant("c10-copy-object", "C10", "R10.a", DISP,
+       "            subscriber.update(scheduled_operation)\n",
+       "            subscriber.update(ScheduledOperation(scheduled_operation.operation, scheduled_operation.start_time, scheduled_operation.machine_id))\n")
+mutant("c10-reset-before-own", "C10", "R10.b", DISP,
+       """        self.schedule.reset()
+        self._machine_next_available_time = [0] * self.instance.num_machines
+        self._job_next_operation_index = [0] * self.instance.num_jobs
+        self._job_next_available_time = [0] * self.instance.num_jobs
+        self._cache = {}
+        for subscriber in self.subscribers:
+            subscriber.reset()
+""",
+       """        self.schedule.reset()
+        for subscriber in self.subscribers:
+            subscriber.reset()
+        self._machine_next_available_time = [0] * self.instance.num_machines
+        self._job_next_operation_index = [0] * self.instance.num_jobs
+        self._job_next_available_time = [0] * self.instance.num_jobs
+        self._cache = {}
+""")
+mutant("c10-subscribe-front", "C10", "R10.c", DISP,
+       "        self.subscribers.append(observer)", "        self.subscribers.insert(0, observer)")
+mutant("c10-unsub-pop", "C10", "R10.c", DISP,
+       "        self.subscribers.remove(observer)", "        self.subscribers.pop()")
+mutant("c10-foreign-subscribe", "C10", "R10.c", GUP,
+       "        super().__init__(dispatcher, subscribe=subscribe)\n        self.initial_job_shop_graph",
+       "        super().__init__(dispatcher, subscribe=False)\n        if subscribe:\n            dispatcher.subscribers.append(self)\n        self.initial_job_shop_graph")
+mutant("c10-guard-removed", "C10", "R10.c", DISP,
+       """        if self._is_singleton and any(
+            isinstance(observer, self.__class__)
+            for observer in dispatcher.subscribers
+        ):
+            raise ValidationError(""",
+       """        if False:
+            raise ValidationError(""")
+mutant("c10-double-init", "C10", "R10.c", "job_shop_lib/reinforcement_learning/_reward_observers.py",
+       "        super().__init__(dispatcher, subscribe=subscribe)\n        self.current_makespan",
+       "        super().__init__(dispatcher, subscribe=subscribe)\n        DispatcherObserver.__init__(self, dispatcher, subscribe=subscribe)\n        self.current_makespan")
+mutant("c10-hist-copy-start", "C10", "R10.d", HIST,
+       "        self.history.append(scheduled_operation)", "        self.history.insert(0, scheduled_operation)")
+mutant("c10-hist-no-reset", "C10", "R10.d", HIST,
+       "    def reset(self):\n        self.history = []", "    def reset(self):\n        pass")
+mutant("c10-cog-ignores-condition", "C10", "R10.e", DISP,
+       """            if isinstance(existing_observer, observer) and condition(
+                existing_observer
+            ):""", "            if isinstance(existing_observer, observer):")
+mutant("c10-cog-drops-kwargs", "C10", "R10.e", DISP,
+       "        new_observer = observer(self, **kwargs)", "        new_observer = observer(self)")
+mutant("c10-update-creates", "C10", "R10.f", REM,
+       "    def update(self, scheduled_operation: ScheduledOperation):\n        if FeatureType.JOBS in self.features:\n            job_id",
+       "    def update(self, scheduled_operation: ScheduledOperation):\n        self.dispatcher.create_or_get_observer(UnscheduledOperationsObserver)\n        if FeatureType.JOBS in self.features:\n            job_id")
+refactor("c10-r-rename-loopvar", "C10", DISP, NOTIFY,
+         "        for obs in self.subscribers:\n            obs.update(scheduled_operation)\n")
+refactor("c10-r-notify-helper", "C10", DISP,
+         NOTIFY + "\n    def create_or_get_observer(",
+         "        self._notify(scheduled_operation)\n\n    def _notify(self, scheduled_operation: ScheduledOperation) -> None:\n" + NOTIFY + "\n    def create_or_get_observer(")
+refactor("c10-r-hist-clear", "C10", HIST, "    def reset(self):\n        self.history = []", "    def reset(self):\n        self.history.clear()")
